@@ -10,11 +10,11 @@ PY = '/venv/bin/python'
 CHECKS = {
     'C03': dict(
         text='TLC enumerates every site/inner-site history up to a bound and proves the transcribed event builder equals the declarative change-log (Leg M); every enumerated history is replayed through the public API (Leg A) and long random multi-atom histories are recorded call by call and judged by the trace spec (Leg B).',
-        note='Trusted: TLC, the transcription of _calculate_transition_events in Sites.tla (bound to the code by Leg A/B), numpy/pandas. States are produced by the real site assignment from coordinates realising the history with >0.5 A margins.',
+        note='Trusted: TLC, the transcription of _calculate_transition_events in Sites.tla (bound to the code by Leg A/B), numpy/pandas. States are produced by the real site assignment from coordinates realising the history with >0.5 A margins; overlapping spheres (inner site != site, MC_Sites Mixed), 1331 sites, narrow integer dtypes and 33 200-frame tilings are included.',
         ref='DESIGN.md 8/C03', technique='TLA+ spec Sites.tla; TLC exhaustive model checking + exported-behaviour replay + trace validation (TraceSites.tla)'),
     'C04': dict(
         text='The jump classifier is transcribed branch by branch into TLA+ and checked by TLC against the declarative definition of jumps on every history up to a bound, for every minimal residence; the implementation is bound to the transcription by replaying every enumerated history and by trace validation of random long histories.',
-        note='Trusted: TLC; the declarative DefJumps operator as the meaning of the property. Row order of Jumps.data is not compared.',
+        note='Trusted: TLC; the declarative DefJumps operator as the meaning of the property. Row order of Jumps.data is not compared. Overlapping spheres (inner site != site, MC_Sites Mixed), 1331 sites and 33 200-frame tilings are included.',
         ref='DESIGN.md 8/C04', technique='TLA+ spec Sites.tla (Step/Run vs DefJumps); TLC model checking + replay of TLC-exported behaviours + trace validation'),
     'C05': dict(
         text='Aggregations (matrix, counter, graph edges, occupancy, atom locations, rates, jump diffusivity) are TLA+ operators over the jump/event tables; TLC checks conservation on the model and judges every recorded API result, with squared minimum-image site distances computed exactly from the integer metric tensor.',
@@ -30,7 +30,7 @@ CHECKS = {
         ref='DESIGN.md 8/C02', technique='TLA+ spec Sites.tla!AssignAtom + Lattice.tla; TLC model checking (MC_Assign) + trace validation (TraceAssign.tla) as exact oracle'),
     'C06': dict(
         text='MSD, distance from the start and tracer diffusivity are TLA+ operators over the integer unwrapped walk and the integer metric tensor; TLC checks lemmas on the model and, as an oracle, prints the exact numerators for harness-generated walks that cross faces many times in 6 cell families x 3 orientations; the floats of the real code must equal these rationals.',
-        note='Trusted: TLC integer arithmetic; exact-lattice abstraction (/16 grid, |step| < half cell); FFT round-off bounds the comparison at relative 1e-8; scipy constants.',
+        note='Trusted: TLC integer arithmetic; exact-lattice abstraction (/16 grid, |step| < half cell); FFT round-off bounds the comparison at relative 1e-8; scipy constants. Beyond a few thousand samples (3-9 million) the harness applies the two lemmas TLC checks on small instances (LinearMsd: uniform motion gives tau^2 |v|^2; MsdPerAtom: a row depends on its own atom only) with a tolerance derived from the round-off of the FFT algorithm.',
         ref='DESIGN.md 8/C06', technique='TLA+ spec Metrics.tla; TLC model checking (MC_Metrics) + TLC as exact oracle on recorded inputs (TraceMetrics.tla)'),
     'C07': dict(
         text='Every spec operator is a function of the integer metric tensor, fractional differences and index sets only (rotation invariance by construction; translation lemma model-checked). Each system is run through the real code in 5 representations (reference, rotated lattice, generic real translation through the faces, permuted atoms and sites, all together); all outputs are mapped back with the logged relabelling and judged by the same trace specs against the same integer inputs; volumes under whole-voxel shifts and path costs on rolled grids likewise.',
@@ -54,7 +54,7 @@ CHECKS = {
         ref='DESIGN.md 8/C11', technique='TLA+ spec Rdf.tla (PairCount, StateClass, StateCounts); TLC model checking (MC_Sites InvStateClassPartition) + trace validation (TraceRdf.tla)'),
     'C12': dict(
         text='The sorted scan of collective.py is transcribed into TLA+ and TLC proves it equal to the declarative pair definition on every bounded jump table (negative control: the early exit originally coded is refuted); TLC-exported tables are replayed through Collective and random tables in real cells are judged by the trace spec with exact site distances.',
-        note='Trusted: TLC; tables injected through the public Jumps(conversion_method=...) parameter; cut-offs kept 1e-4 away from site distances.',
+        note='Trusted: TLC; tables injected through the public Jumps(conversion_method=...) parameter; cut-offs kept 1e-4 away from site distances; cells periodic along some axes only are covered (DistSqPbc).',
         ref='DESIGN.md 8/C12', technique='TLA+ spec Sites.tla (CodePairs vs DeclPairs), MC_Coll with negative control; replay of TLC-exported tables + trace validation (TraceColl.tla)'),
     'C13': dict(
         text='Drift correction is an action of the Trajectory object-store spec; TLC checks on the model that the reference does not move and the first frame is kept along every call sequence, and judges recorded drift()/apply_drift_correction() calls of the real code (fixed/floating/none, str/list/set, Species/Element, raw/derived/already-corrected objects) against the exact corrected walk.',
@@ -74,7 +74,7 @@ CHECKS = {
         ref='DESIGN.md 8/C16', technique='TLA+ spec DiskCache.tla; TLC model checking with crash/corrupt actions + negative control; replay of TLC-exported behaviours; byte-prefix fault enumeration'),
     'C17': dict(
         text='Symmetry-image collection is specified with integer operations (W, w) in the fractional basis and the integer metric tensor; TLC checks within-radius and distance preservation for every site/point position of small line and plane groups (and refutes the original +-1 re-imaging), and compares the multiset of points returned by ShapeAnalyzer for 7 space groups in compatible cells, 3 orientations and integer supercells with the spec.',
-        note='Trusted: TLC; pymatgen space-group operations (asserted to be isometries of the metric tensor); radius below half the smallest perpendicular width.',
+        note='Trusted: TLC; pymatgen space-group operations (asserted to be isometries of the metric tensor); radius below half the smallest perpendicular width. Sites a few 1e-7 off a special position need a grid beyond TLC\'s 32-bit integers: those cases are judged by a Python-integer mirror of the spec\'s membership rule (harness/shape_fine.py) that is cross-checked against TraceShape on every regular case of every run.',
         ref='DESIGN.md 8/C17', technique='TLA+ spec Shape.tla; TLC model checking (MC_Shape + negative control) + trace validation (TraceShape.tla) with multiset comparison'),
     'C18': dict(
         text='Matching, minimum-image bond vectors, images under orthogonal operations, linear maps and autocorrelation numerators are TLA+ operators over integer grid positions; TLC checks group-closure / transpose / invariance lemmas exhaustively for a point group on small vectors and prints the expected integers for harness-generated cluster trajectories, against which Orientations.vectors, lengths, normalize, symmetrize (20 point groups, both call forms), transform and autocorrelation are compared.',
@@ -82,11 +82,11 @@ CHECKS = {
         ref='DESIGN.md 8/C18', technique='TLA+ spec Orient.tla; TLC model checking (MC_Orient) + TLC as exact oracle on recorded inputs (TraceOrient.tla)'),
     'C19': dict(
         text='TLC checks on every bounded history and every cut that part jumps are jumps of the whole; recorded split() results of the real code are validated by the trace spec for partition, exactly-once, re-basing and chronology with an offset witness.',
-        note='Where part boundaries fall is deliberately not constrained. Trusted: TLC, harness witness search (exhaustive, verified by TLC).',
+        note='Inner part boundaries are not constrained; unless trimmed to equal length, trajectory parts must follow one another without a gap from frame 0 to the last or next-to-last frame (every frames <= 130/400 x parts <= 16/40). Trusted: TLC, harness witness search (exhaustive, verified by TLC).',
         ref='DESIGN.md 8/C19', technique='TLA+ spec Sites.tla (InvPartsSubset) + trace validation of split()/rates() (TraceSites.tla)'),
     'C20': dict(
         text='weak_lru_cache is specified with object incarnations at reusable addresses, LRU eviction, drop and collection; TLC checks transparency, no cross-talk and no pinning over all interleavings and refutes three negative-control variants (id key, strong key, value referencing owner). Recorded lifecycles of a probe class with the real decorator, of real Transitions/Jumps/TrajectoryMetrics objects and of >128 live owners are validated event by event.',
-        note='Trusted: TLC; CPython refcount/gc semantics observed through weakref.finalize; value equality by canonical digest; cache hits are not observable and not constrained.',
+        note='Trusted: TLC; CPython refcount/gc semantics observed through weakref.finalize; values compared structurally with floats up to 1e-9 relative (a memoised value may have been computed in the other internal representation of the trajectory); rejected arguments (exceptions) are outcomes too; cache hits are not observable and not constrained.',
         ref='DESIGN.md 8/C20', technique='TLA+ spec MemoCache.tla; TLC model checking + 3 negative controls; trace validation of recorded lifecycles (TraceMemo.tla)'),
 }
 
